@@ -33,8 +33,26 @@ Proof.
   - destruct (SHIFT_LIMIT <? b) eqn:E3; [apply Z.ltb_lt in E3; lia|]. reflexivity.
 Qed.
 
+Lemma fast_shiftr_eq a b : 0 <= b -> fast_shiftr a b = Z.shiftr a b.
+Proof.
+  intros Hb. unfold fast_shiftr.
+  destruct (Z.log2 (Z.abs a) + 1 <? b) eqn:E; [|reflexivity]. apply Z.ltb_lt in E.
+  destruct (a <? 0) eqn:N.
+  - apply Z.ltb_lt in N. rewrite Z.shiftr_div_pow2 by lia.
+    assert (Hlt : - a < 2 ^ b).
+    { replace (Z.abs a) with (- a) in E by lia.
+      apply Z.log2_lt_pow2; [lia|]. lia. }
+    apply Zdiv_unique with (r := a + 2 ^ b); lia.
+  - apply Z.ltb_ge in N. symmetry.
+    destruct (Z.eq_dec a 0) as [->|Hne]; [apply Z.shiftr_0_l|].
+    apply Z.shiftr_eq_0; [lia|]. replace (Z.abs a) with a in E by lia. lia.
+Qed.
+
 Lemma py_shr_ok a b : 0 <= b -> py_shr a b = Ok (Z.shiftr a b).
-Proof. intros. unfold py_shr. destruct (b <? 0) eqn:E; [apply Z.ltb_lt in E; lia|reflexivity]. Qed.
+Proof.
+  intros. unfold py_shr. destruct (b <? 0) eqn:E; [apply Z.ltb_lt in E; lia|].
+  rewrite fast_shiftr_eq by lia. reflexivity.
+Qed.
 
 Lemma py_mod_ok a b : b <> 0 -> py_mod a b = Ok (a mod b).
 Proof. intros. unfold py_mod. destruct (b =? 0) eqn:E; [apply Z.eqb_eq in E; lia|reflexivity]. Qed.
